@@ -129,8 +129,8 @@ pub fn c33(rep: &mut Report, rng: &mut Rng, cases: u64) {
 
 // ---------------------------------------------------------------- C34
 
-fn rand_sentence(rng: &mut Rng) -> String {
-    let words = ["alpha", "beta", "gamma", "delta", "omega", "répété", "漢字", "data", "flow", "x"];
+fn rand_sentence(rng: &mut Rng, ascii_only: bool) -> String {
+    let words = if ascii_only { ["alpha", "beta", "gamma", "delta", "omega", "repeat", "kanji", "data", "flow", "x"] } else { ["alpha", "beta", "gamma", "delta", "omega", "répété", "漢字", "data", "flow", "x"] };
     let n = rng.usize(1, 14);
     let mut s: Vec<&str> = Vec::new();
     for _ in 0..n {
@@ -142,6 +142,16 @@ fn rand_sentence(rng: &mut Rng) -> String {
 
 pub fn rand_document(rng: &mut Rng, target_chars: usize, structured: bool) -> String {
     let mut out = String::new();
+    // in a third of the documents a few multi-byte words come first: character and byte offsets then differ
+    // for the whole (otherwise mostly ASCII) text
+    if rng.chance(1, 3) {
+        for _ in 0..rng.usize(1, 5) {
+            out.push_str(rng.pick(&["café", "naïve", "Éléonore", "漢字", "😀", "straße", "señor"]));
+            out.push(' ');
+        }
+    }
+    // half of the documents have a pure-ASCII body (so whole chunks are ASCII), the others mix scripts everywhere
+    let ascii_body = rng.chance(1, 2);
     while out.chars().count() < target_chars {
         let roll = rng.below(100);
         if structured && roll < 8 {
@@ -163,16 +173,16 @@ pub fn rand_document(rng: &mut Rng, target_chars: usize, structured: bool) -> St
             }
             out.push_str("```\n");
         } else if roll < 30 {
-            out.push_str(&rand_sentence(rng));
+            out.push_str(&rand_sentence(rng, ascii_body));
             out.push_str(rng.pick(&["\n", "\n\n", "\r\n", "  \n"]));
         } else if roll < 33 {
             // long run without sentence terminals or whitespace
             for _ in 0..rng.usize(100, 1700) {
-                out.push(rng.pick(&['x', 'y', 'é', '漢']));
+                out.push(if ascii_body { rng.pick(&['x', 'y', 'z', 'w']) } else { rng.pick(&['x', 'y', 'é', '漢']) });
             }
             out.push(' ');
         } else {
-            out.push_str(&rand_sentence(rng));
+            out.push_str(&rand_sentence(rng, ascii_body));
             out.push_str(rng.pick(&[" ", "  ", "\t", " "]));
         }
     }
